@@ -24,6 +24,13 @@ where
     fn map_soft_error(&self, err: Self::Error) -> Result<Self::Output, Self::Error> {
         Err(err)
     }
+
+    /// Determines if the input should go back to the position it had before
+    /// the decorated parser was invoked, when the decorated parser returns a soft error.
+    /// A parser can fail softly after having consumed input (e.g. `and_then`).
+    fn undo_on_soft_error(&self) -> bool {
+        false
+    }
 }
 
 /// Marker trait for `MapDecorator`.
@@ -39,9 +46,17 @@ where
     type Error = D::Error;
 
     fn parse(&mut self, input: &mut I) -> Result<Self::Output, Self::Error> {
+        let original_position = input.get_position();
         match self.decorated().parse(input) {
             Ok(ok) => self.map_ok(ok),
-            Err(err) if err.is_soft() => self.map_soft_error(err),
+            Err(err) if err.is_soft() => {
+                if self.undo_on_soft_error() {
+                    // the soft error is absorbed (e.g. to_option, or_default),
+                    // nothing has been parsed
+                    input.set_position(original_position);
+                }
+                self.map_soft_error(err)
+            }
             Err(err) => Err(err),
         }
     }
